@@ -20,7 +20,9 @@ RULE = ("packets drawn field-by-field over the full width of every field (edge v
         "random), 0-3 arguments present as a prefix plus a malformed stream (fields beyond "
         "their width, argument gaps) and random byte strings of length 0-60 decoded with "
         "n_args 0-4; a case is non-trivial when it is in range with >= 1 argument or a "
-        "decode whose payload ends inside the argument words; distinct = distinct canonical JSON")
+        "decode whose payload ends inside the argument words; one encode in five re-uses ONE packet object "
+        "(built and encoded with other values, then every field assigned, then encoded again); all encodes run in "
+        "one process, failed encodes included; distinct = distinct canonical JSON")
 
 SDP_FIELDS = ["tag", "dest_port", "dest_cpu", "src_port", "src_cpu", "dest_x", "dest_y", "src_x", "src_y"]
 WIDTH = {"tag": 256, "dest_port": 8, "dest_cpu": 32, "src_port": 8, "src_cpu": 32,
@@ -74,8 +76,30 @@ def in_range(p):
     return present == sorted(present, reverse=True)
 
 
-def impl_encode(kind, p):
+def impl_encode(kind, p, reuse_from=None):
     from rig.machine_control import packets
+    if reuse_from is not None:
+        # ONE packet object: built and encoded with other field values first, then every field is
+        # assigned and it is encoded again - the bytes must be the layout of the fields it has NOW
+        q = reuse_from
+        try:
+            kw = dict(reply_expected=q["reply"], tag=q["tag"], dest_port=q["dest_port"], dest_cpu=q["dest_cpu"],
+                      src_port=q["src_port"], src_cpu=q["src_cpu"], dest_x=q["dest_x"], dest_y=q["dest_y"],
+                      src_x=q["src_x"], src_y=q["src_y"], data=bytes(q["data"]))
+            if kind == "scp":
+                kw.update(cmd_rc=q["cmd_rc"], seq=q["seq"], arg1=q["arg1"], arg2=q["arg2"], arg3=q["arg3"])
+            pk = (packets.SDPPacket if kind == "sdp" else packets.SCPPacket)(**kw)
+            try:
+                pk.bytestring
+            except struct.error:
+                pass
+            for k, v in p.items():
+                if kind == "sdp" and k in ("cmd_rc", "seq", "arg1", "arg2", "arg3"):
+                    continue
+                setattr(pk, "reply_expected" if k == "reply" else k, bytes(v) if k == "data" else v)
+            return {"ok": list(pk.bytestring)}
+        except struct.error:
+            return {"err": "struct.error"}
     kw = dict(reply_expected=p["reply"], tag=p["tag"], dest_port=p["dest_port"],
               dest_cpu=p["dest_cpu"], src_port=p["src_port"], src_cpu=p["src_cpu"],
               dest_x=p["dest_x"], dest_y=p["dest_y"], src_x=p["src_x"], src_y=p["src_y"],
@@ -118,7 +142,7 @@ def eval_cases(ctx, cases):
             if failed is not None and "after_failed_encode" not in c:
                 # all encodes run in one process: an encode that raised comes before this one (kept for the replay)
                 c["after_failed_encode"] = failed
-            c["impl"] = impl_encode(c["proto"], c["pkt"])
+            c["impl"] = impl_encode(c["proto"], c["pkt"], c.get("reuse_from"))
             failed = {"proto": c["proto"], "pkt": c["pkt"]} if "err" in c["impl"] else None
             reqs.append(dict(c["pkt"], suite="c15", op="enc_" + c["proto"]))
             idx.append((c, "model"))
@@ -182,6 +206,8 @@ def gen_cases(ctx, n):
         if r < 0.55:
             cases.append({"kind": "enc", "proto": rng.choice(["sdp", "scp", "scp"]),
                           "pkt": gen_packet(rng, rng.random() < 0.15)})
+            if rng.random() < 0.2:
+                cases[-1]["reuse_from"] = gen_packet(rng, rng.random() < 0.15)
         else:
             ln = rng.choice([0, 5, 9, 10, 13, 14, 15, 17, 18, 21, 22, 25, 26, 27, 30, 60])
             cases.append({"kind": "dec", "proto": rng.choice(["sdp", "scp", "scp"]),
